@@ -123,7 +123,7 @@ PROPS = {
     },
     "C07": {
         "modules": ["C07", "C07Chain"],
-        "streams": [{"name": "chain", "quick": 40, "thorough": 500}],
+        "streams": [{"name": "chain", "quick": 40, "thorough": 500}, {"name": "merkle", "quick": 40, "thorough": 300}],
         "projection": "chain",
         "oracles": [],
         "assumptions": ["blake3 collision-freeness enters as the explicit hypotheses `Injective` / `RootsInjective` of the soundness and sensitivity theorems",
